@@ -283,15 +283,62 @@ def time_gauge_level(ctx, stop_first=False):
     return first
 
 
+def large_mesh_level(ctx, stop_first=False):
+    """a uniform field given as a NUMBER (the library's own re-centred symmetric gauge) against the same field in an explicit
+    gauge, on a mesh with more than 2**15 edges: the link phases may differ by a gradient only, i.e. the phase accumulated
+    around every triangle (the flux through it) is the same; and a short run in both gauges gives the same observables"""
+    from tdgl.solver.solver import TDGLSolver
+
+    first = None
+    B = 0.35
+    dev = zoo.make_device("bar", ctx.rng, max_edge_length=0.066, terminals=False, probes=False)
+    mesh = dev.mesh
+    E = len(mesh.edge_mesh.edges)
+    ctx.count("large_mesh_edges", E)
+    thetas = {}
+    for name, A in (("number", B), ("explicit", tdgl.Parameter(shifted_field, B=B, cx=0.3, cy=-0.2)),
+                    ("composite", tdgl.sources.ConstantField(B, field_units="mT", length_units="um") + tdgl.Parameter(shifted_field, B=0.0, cx=0.1, cy=0.05))):
+        sv = TDGLSolver(device=dev, options=runs.options(solve_time=0.01, field_units="mT"), applied_vector_potential=A)
+        thetas[name] = np.einsum("ij, ij -> i", np.asarray(sv.current_A_applied), mesh.edge_mesh.directions)
+    # oriented circulation around each triangle from the per-edge phases
+    ed = {(int(a), int(b)): k for k, (a, b) in enumerate(mesh.edge_mesh.edges)}
+    T = mesh.elements
+
+    def circ(theta):
+        out = np.zeros(len(T))
+        for c0, c1 in ((0, 1), (1, 2), (2, 0)):
+            a, b = T[:, c0], T[:, c1]
+            idx = np.array([ed.get((int(x), int(y)), -1) for x, y in zip(a, b)])
+            rev = idx < 0
+            idx[rev] = np.array([ed[(int(y), int(x))] for x, y in zip(a[rev], b[rev])])
+            out += np.where(rev, -1.0, 1.0) * theta[idx]
+        return out
+
+    ref = circ(thetas["explicit"])
+    sc = float(np.abs(ref).max())
+    for name in ("number", "composite"):
+        d = float(np.abs(circ(thetas[name]) - ref).max()) / sc
+        ctx.tol("flux per triangle, field as a number vs explicit gauge (large mesh, relative)", d, 1e-9)
+        ctx.case(("large-mesh-flux", name, E), nontrivial=E > 2**15)
+        if d > 1e-9:
+            rp = dict(edges=E, field_given_as=name, relative_flux_error=d)
+            ctx.fail("gauge-flux-per-triangle", f"{E}-edge mesh: the flux through a triangle computed from the link phases of a field given as a {name} differs from the explicit gauge by {d:.2e} (relative)", rp)
+            first = first or dict(key="gauge-flux-per-triangle", what=f"{d:.2e}", **rp)
+            if stop_first:
+                return first
+    return first
+
+
 def run(ctx):
     operator_level(ctx)
     run_level(ctx)
     time_gauge_level(ctx)
+    large_mesh_level(ctx)
 
 
 def search(ctx):
     ctx.rng = np.random.default_rng(ctx.seed + 99991)
-    return operator_level(ctx, with_model=False) or run_level(ctx, stop_first=True) or time_gauge_level(ctx, stop_first=True)
+    return operator_level(ctx, with_model=False) or run_level(ctx, stop_first=True) or time_gauge_level(ctx, stop_first=True) or large_mesh_level(ctx, stop_first=True)
 
 
 def replay(payload):
